@@ -1198,13 +1198,13 @@ func ruleLock6(c *Ctx, r *Reporter) {
 				r.bad(key, c.pos(call.Pos()), "results of Begin are not both used")
 				return
 			}
-			checks := errChecksOf(errv)
+			checks := errChecksDeep(errv)
 			if len(checks) == 0 {
 				r.bad(key, c.pos(call.Pos()), "the error of Begin is never tested")
 				return
 			}
 			// values equal to txn (through phis / spills are not needed here: txn is used directly)
-			isTxn := func(v ssa.Value) bool { return stripValue(v) == txn }
+			isTxn := func(v ssa.Value) bool { return resolveHelperValue(stripValue(v)) == txn }
 			isReleaseInstr := func(x ssa.Instruction) (kind string) {
 				switch y := x.(type) {
 				case *ssa.Defer:
@@ -1215,6 +1215,11 @@ func ruleLock6(c *Ctx, r *Reporter) {
 					f := calleeObj(&y.Call)
 					if (f == abort || f == commit) && len(y.Call.Args) == 2 && isTxn(y.Call.Args[1]) {
 						return "Abort/Commit"
+					}
+					for i, a := range y.Call.Args {
+						if isTxn(a) && releasesTxnParam(staticFn(&y.Call), i, abort, commit, 0) {
+							return "helper that commits or aborts"
+						}
 					}
 				case *ssa.Store:
 					if _, ok := fieldAddrOf(y.Addr, sessTxn); ok && isTxn(y.Val) {
@@ -1258,7 +1263,7 @@ func ruleLock6(c *Ctx, r *Reporter) {
 							}
 						case *ssa.Return:
 							// allowed only when the transaction is known to be unlocked on this path
-							if !isConst && pathImpliesUnlocked(lockArg, b) {
+							if !isConst && b.Parent() == fn && pathImpliesUnlocked(lockArg, b) {
 								kinds["unlocked path"]++
 								return
 							}
@@ -1295,6 +1300,35 @@ func ruleLock6(c *Ctx, r *Reporter) {
 		})
 	}
 	r.guard(sites, 8, "Engine.Begin(lock) call sites")
+}
+
+// releasesTxnParam: h is a function of package lungo whose every path from entry to a return commits or aborts the
+// transaction it receives as parameter idx (Engine.Commit / Engine.Abort on it, directly or in a function it hands the
+// transaction to): a call h(txn) ends the caller's obligation like the Commit/Abort it wraps.
+func releasesTxnParam(h *ssa.Function, idx int, abort, commit *types.Func, depth int) bool {
+	if h == nil || h.Blocks == nil || fnPkgPath(h) != pkgLungo || idx >= len(h.Params) || depth > 2 {
+		return false
+	}
+	p := h.Params[idx]
+	isP := func(v ssa.Value) bool { return stripValue(v) == ssa.Value(p) }
+	pass := func(x ssa.Instruction) bool {
+		switch y := x.(type) {
+		case *ssa.Defer:
+			return calleeObj(&y.Call) == abort && len(y.Call.Args) == 2 && isP(y.Call.Args[1])
+		case *ssa.Call:
+			f := calleeObj(&y.Call)
+			if (f == abort || f == commit) && len(y.Call.Args) == 2 && isP(y.Call.Args[1]) {
+				return true
+			}
+			for i, a := range y.Call.Args {
+				if isP(a) && releasesTxnParam(staticFn(&y.Call), i, abort, commit, depth+1) {
+					return true
+				}
+			}
+		}
+		return false
+	}
+	return exitWithoutPassing(h.Blocks[0].Instrs[0], pass, nil) == nil
 }
 
 // pathImpliesUnlocked: block b is only reachable through the false edge of `if lock` (i.e. under !lock).
@@ -1444,7 +1478,7 @@ func ruleLock7(c *Ctx, r *Reporter) {
 		return
 	}
 	var kill ssa.Instruction
-	allInstrs(closeFn, func(in ssa.Instruction) {
+	coneInstrs(closeFn, func(in ssa.Instruction) {
 		if call, ok := in.(*ssa.Call); ok {
 			if f := calleeObj(&call.Call); f != nil && f.Pkg() != nil && f.Pkg().Path() == "gopkg.in/tomb.v2" && f.Name() == "Kill" {
 				kill = in
@@ -1510,7 +1544,7 @@ func ruleLock8(c *Ctx, r *Reporter) {
 				} else {
 					nSet++
 					fromBegin := false
-					if ex, ok := st.Val.(*ssa.Extract); ok {
+					if ex, ok := resolveHelperValue(st.Val).(*ssa.Extract); ok {
 						if call, ok := ex.Tuple.(*ssa.Call); ok && calleeObj(&call.Call) == begin {
 							fromBegin = true
 						}
@@ -1534,6 +1568,18 @@ func ruleLock8(c *Ctx, r *Reporter) {
 					}
 					badExit := exitWithoutPassing(in, isClear, nil)
 					leak := badExit != nil
+					// at a caller, handing over to a function of the package that clears the flag on all its paths counts
+					isClearDeep := func(x ssa.Instruction) bool {
+						if isClear(x) {
+							return true
+						}
+						if call, ok := x.(*ssa.Call); ok {
+							if h := staticFn(&call.Call); h != nil && h.Blocks != nil && fnPkgPath(h) == pkgLungo && h != fn {
+								return exitWithoutPassing(h.Blocks[0].Instrs[0], isClear, nil) == nil
+							}
+						}
+						return false
+					}
 					if leak && fn.Object() != nil && !fn.Object().Exported() {
 						// a reservation helper: the flag is handed to the callers, each of which must clear it on every way out
 						sites, okSites := 0, 0
@@ -1556,10 +1602,10 @@ func ruleLock8(c *Ctx, r *Reporter) {
 									}
 									good := true
 									for _, st0 := range starts {
-										if isClear(st0) {
+										if isClearDeep(st0) {
 											continue
 										}
-										if exitWithoutPassing(st0, isClear, nil) != nil {
+										if exitWithoutPassing(st0, isClearDeep, nil) != nil {
 											good = false
 										}
 									}
